@@ -588,7 +588,7 @@ def mixture_symmetric_point_pos(params, ns, s1, s2, sel_dist1, sel_dist2,
 
     params1 = list(pdf_params) + [ppos, gamma_pos]
     fs1 = s1.integrate_point_pos(params1, None, sel_dist1, theta, Npos=1, pts=None)
-    params2 = list(pdf_params) + [rho, ppos, gamma_pos, ppos, gamma_pos]
+    params2 = list(pdf_params) + [rho, ppos, gamma_pos]
     fs2 = s2.integrate_symmetric_point_pos(params2, None, sel_dist2, theta, None)
     return (1-p2d)*fs1 + p2d*fs2
 
@@ -633,5 +633,5 @@ def mixture_point_pos(params, ns, s1, s2, sel_dist1, sel_dist2,
     params1 = list(pdf_params) + [ppos1, gamma_pos1]
     fs1 = s1.integrate_point_pos(params1, None, sel_dist1, theta, Npos=1, pts=None)
     params2 = list(pdf_params) + [rho, ppos1, gamma_pos1, ppos2, gamma_pos2]
-    fs2 = s2.integrate_point_pos(params2, None, sel_dist2, theta, None)
+    fs2 = s2.integrate_point_pos(params2, None, sel_dist2, theta, rho=rho, pts=None)
     return (1-p2d)*fs1 + p2d*fs2
